@@ -1,6 +1,7 @@
 import Bgpfu.Lemmas.Readers
 import Bgpfu.Lemmas.Hello
 import Bgpfu.Lemmas.Rename
+import Bgpfu.Lemmas.Misc
 /-!
 # C13 — parsing is invariant under XML-equivalent serialisations of a message
 
@@ -17,6 +18,11 @@ What is decided here, on the event level (the level the readers work at):
   every reader (replies, hello, the agent's candidate and installed-policies readers), every event
   list and every injective renaming (last section; lemmas in `Lemmas/Rename.lean`). That quick-xml
   maps a prefix rewrite of the text to exactly such a renaming is tested (`meta` op), not proved.
+* comments before and after the root element (XML `document ::= prolog element Misc*`) —
+  **invariant** (theorems over all event lists, every configuration; final section `Misc`, lemmas in
+  `Lemmas/Misc.lean`); white space there is trimmed away by the tokenizer, so comments are the only
+  `Misc` items that reach the readers unchanged in meaning (a PI is part of the infoset, not an
+  equivalent rewrite; at document level it is rejected: `trailing_pi_cex`).
 Inter-element whitespace, attribute order and quoting are rewrites the tokenizer absorbs: they are
 invisible in the event list, so they are covered by the metamorphic correspondence run (`meta` op)
 only — that part is testing.
@@ -365,6 +371,139 @@ example :
     (readCandidatesDoc .fixed some some (renameEvs ncPrefix exCandidateReply)).toOption
       = some [("fltr-foo", .parsed "AS-FOO")] ∧
     (readCandidatesDoc .fixed some some exCandidateReply).toOption = some [("fltr-foo", .parsed "AS-FOO")] := by
+  decide
+
+/-! ### `Misc` around the root element: comments before `<rpc-reply>` / `<hello>` and after the end tag
+
+XML allows `Misc*` (comments, white space, PIs) in the prolog and after the root element. White
+space between markup never reaches the event list (`trim_text(true)`), so on the event level the
+rewrite is: some `Comment` events in front of the list, and some between the root's `End` event and
+the final `Eof`. Both are invisible to both parse phases — for **every event list**, every
+configuration (pinned and repaired code) and every number of comments; the statements about the
+grammar documents (`replyDocMisc`, `helloDocMisc`) are corollaries and need no well-formedness
+hypothesis. Lemmas: `Lemmas/Misc.lean` (`*_mono`: more fuel, same result; `*_trail`: every reader
+loop commutes with the insertion in front of the final `Eof`). -/
+
+/-- **A comment in front of a reply makes no difference** — both parse phases, the message-id
+cross-check and `into_result`; every configuration, every reply type, every event list. -/
+theorem reply_leading_comment_invariant (c : RCfg) (k : ReplyKind) (evs : List Ev) :
+    readMessage c k (.comment :: evs) = readMessage c k evs :=
+  readMessage_lead c k 1 evs
+
+/-- … nor do any number of them -/
+theorem reply_leading_comments_invariant (c : RCfg) (k : ReplyKind) (n : Nat) (evs : List Ev) :
+    readMessage c k (List.replicate n .comment ++ evs) = readMessage c k evs :=
+  readMessage_lead c k n evs
+
+/-- **A comment in front of the server's hello makes no difference to session establishment.** -/
+theorem hello_leading_comment_invariant (c : RCfg) (adv : Bool) (o : UriOracle) (evs : List Ev) :
+    establish c adv o (.comment :: evs) = establish c adv o evs :=
+  establish_lead c adv o 1 evs
+
+theorem hello_leading_comments_invariant (c : RCfg) (adv : Bool) (o : UriOracle) (n : Nat) (evs : List Ev) :
+    establish c adv o (List.replicate n .comment ++ evs) = establish c adv o evs :=
+  establish_lead c adv o n evs
+
+/-- **Comments between the end of the message body and the end of input make no difference to a
+reply** — for every event list `body ++ [Eof]` (in particular: whatever `body` is, well-formed
+or not, complete or cut short), every number of comments, every configuration and reply type. -/
+theorem reply_trailing_comments_invariant (c : RCfg) (k : ReplyKind) (n : Nat) (body : List Ev) :
+    readMessage c k (body ++ List.replicate n .comment ++ [.eof]) = readMessage c k (body ++ [.eof]) := by
+  rw [← trailMisc_append_eof]; exact readMessage_trail c k n _
+
+/-- … nor to session establishment from the server's hello (every URI oracle). -/
+theorem hello_trailing_comments_invariant (c : RCfg) (adv : Bool) (o : UriOracle) (n : Nat) (body : List Ev) :
+    establish c adv o (body ++ List.replicate n .comment ++ [.eof]) = establish c adv o (body ++ [.eof]) := by
+  rw [← trailMisc_append_eof]; exact establish_trail c adv o n _
+
+/-- **`Misc` around `<rpc-reply>`**: every document of the reply grammar (no hypothesis on the
+children: any `cs`, any attributes, any message-id text) reads the same with `pre` comments in
+front of the root element and `post` comments between `</rpc-reply>` and the end of input. -/
+theorem reply_misc_invariant (c : RCfg) (k : ReplyKind) (pre post : Nat) (raw idAttr : String)
+    (extra : List AttrItem) (cs : List Top) :
+    readMessage c k (replyDocMisc pre post raw idAttr extra cs) = readMessage c k (replyDoc raw idAttr extra cs) := by
+  rw [replyDocMisc_eq, readMessage_lead, readMessage_trail]
+
+/-- with the well-formedness hypotheses of the refinement theorem: the reader computes the
+child-level semantics `replyAbs` on the document with `Misc`, too -/
+theorem readMessage_docMisc (c : RCfg) (k : ReplyKind) (pre post : Nat) (raw idAttr : String) (extra : List AttrItem)
+    (cs : List Top) (id : Nat) (hid : parseUsize idAttr = some id) (hwf : ∀ x ∈ cs, x.WF)
+    (hin : Inert raw (cs.flatMap Top.render)) :
+    readMessage c k (replyDocMisc pre post raw idAttr extra cs) = outcomeOf (replyAbs c k cs) := by
+  rw [reply_misc_invariant, readMessage_doc c k raw idAttr extra cs id hid hwf hin]
+
+/-- the "insert between `</rpc-reply>` and `Eof`" form of the same statement -/
+theorem reply_doc_trailing_comments_invariant (c : RCfg) (k : ReplyKind) (n : Nat) (raw idAttr : String)
+    (extra : List AttrItem) (cs : List Top) :
+    readMessage c k ((replyDoc raw idAttr extra cs).dropLast ++ List.replicate n .comment ++ [.eof])
+      = readMessage c k (replyDoc raw idAttr extra cs) := by
+  have h : replyDoc raw idAttr extra cs
+      = (.start (replyTag raw idAttr extra) :: (cs.flatMap Top.render ++ [.end raw])) ++ [.eof] := by
+    simp [replyDoc, replyTag]
+  rw [h, List.dropLast_concat, reply_trailing_comments_invariant]
+
+/-- **`Misc` around `<hello>`**: every document of the hello grammar establishes the same session
+(or fails with the same error) with comments in front of `<hello>` and after `</hello>`. -/
+theorem hello_misc_invariant (c : RCfg) (adv : Bool) (o : UriOracle) (pre post : Nat) (raw : String)
+    (attrs : List AttrItem) (cs : List HChild) :
+    establish c adv o (helloDocMisc pre post raw attrs cs) = establish c adv o (helloDoc raw attrs cs) := by
+  rw [helloDocMisc_eq, establish_lead, establish_trail]
+
+/-- with the well-formedness hypothesis of the refinement theorem: `establishAbs` -/
+theorem establish_docMisc (c : RCfg) (adv : Bool) (o : UriOracle) (pre post : Nat) (raw : String)
+    (attrs : List AttrItem) (cs : List HChild) (hwf : ∀ x ∈ cs, x.WF) :
+    establish c adv o (helloDocMisc pre post raw attrs cs) = establishAbs c adv o cs := by
+  rw [hello_misc_invariant, establish_doc c adv o raw attrs cs hwf]
+
+theorem hello_doc_trailing_comments_invariant (c : RCfg) (adv : Bool) (o : UriOracle) (n : Nat) (raw : String)
+    (attrs : List AttrItem) (cs : List HChild) :
+    establish c adv o ((helloDoc raw attrs cs).dropLast ++ List.replicate n .comment ++ [.eof])
+      = establish c adv o (helloDoc raw attrs cs) := by
+  have h : helloDoc raw attrs cs
+      = (.start (helloTag raw attrs) :: (cs.flatMap HChild.render ++ [.end raw])) ++ [.eof] := by
+    simp [helloDoc, helloTag]
+  rw [h, List.dropLast_concat, hello_trailing_comments_invariant]
+
+/-- what `replyDocMisc 1 2` produces for `<rpc-reply message-id="1"><ok/></rpc-reply>` -/
+example :
+    replyDocMisc 1 2 "rpc-reply" "1" [] [.ok]
+      = [.comment, .start (replyTag "rpc-reply" "1" []), .empty okTag, .end "rpc-reply", .comment, .comment, .eof] := by
+  decide
+
+/-- non-vacuity: `<rpc-reply message-id="1"><ok/></rpc-reply><!-- a --><!-- b -->` reads to `ok`,
+with and without a comment in front, in the pinned and in the current code -/
+example :
+    readMessage .fixed .empty
+      [.start (replyTag "rpc-reply" "1" []), .empty okTag, .end "rpc-reply", .comment, .comment, .eof] = .ok ∧
+    readMessage .pinned .empty
+      [.comment, .start (replyTag "rpc-reply" "1" []), .empty okTag, .end "rpc-reply", .comment, .comment, .eof] = .ok ∧
+    readMessage .fixed .empty (replyDoc "rpc-reply" "1" [] [.ok]) = .ok := by
+  decide
+
+/-- non-vacuity through the theorem: a `<data>` reply with `Misc` on both sides -/
+example :
+    readMessage .fixed .data (replyDocMisc 3 2 "rpc-reply" "7" [] [.data "<a/>" [.empty (baseTag "a" none)]]) = .data "<a/>" := by
+  rw [reply_misc_invariant]; decide
+
+/-- non-vacuity, hello: `<hello>…</hello><!-- c -->` establishes the session -/
+example :
+    (establish .fixed false (fun _ => some { scheme := "urn", authority := none, path := "ietf:params:netconf:base:1.0", query := none, fragment := none })
+      [.start (helloTag "hello" []), .start { ns := .bound BASE, lname := "capabilities", raw := "capabilities", attrs := [], span := none },
+       .start (baseTag "capability" (some "urn:ietf:params:netconf:base:1.0")), .end "capability", .end "capabilities",
+       .start (baseTag "session-id" (some "4711")), .end "session-id", .end "hello", .comment, .eof]).toOption
+      = some { sid := 4711, version := .v10, serverCaps := [.base10] } ∧
+    helloDocMisc 0 1 "hello" [] [.caps "capabilities" [.cap "urn:ietf:params:netconf:base:1.0" []], .sid "4711" []]
+      = [.start (helloTag "hello" []), .start { ns := .bound BASE, lname := "capabilities", raw := "capabilities", attrs := [], span := none },
+         .start (baseTag "capability" (some "urn:ietf:params:netconf:base:1.0")), .end "capability", .end "capabilities",
+         .start (baseTag "session-id" (some "4711")), .end "session-id", .end "hello", .comment, .eof] := by
+  decide
+
+/-- scope of the statements above: comments only. A processing instruction after the root element
+is not an equivalent rewrite (PIs are part of the infoset) and the current code rejects it
+(`Event::PI` falls into the catch-all arm of `from_xml`). -/
+theorem trailing_pi_cex :
+    readMessage .fixed .empty
+      [.start (replyTag "rpc-reply" "1" []), .empty okTag, .end "rpc-reply", .pi, .eof] = .err .unexpected := by
   decide
 
 end Xml
